@@ -76,9 +76,12 @@ def make(base):
     return R
 
 N = 6 if tier == 'quick' else 8
-for n in range(1, N + 1):
-    for shape in shapes(n):
-        t = materialise(shape, itertools.count())
+# hand-made trees first: a discarded node whose parent has earlier siblings, discarded roots, discarded tokens' neighbours
+HAND = [Tree('a', [Token('T', 'x'), Tree('b', [Tree('c', [])])]), Tree('a', [Tree('a', [Token('T', 'y')]), Tree('d', [Tree('c', []), Tree('c', [Token('T', 'z')])]), Token('T', 'w')]),
+        Tree('c', []), Tree('d', [Tree('c', [])]), Tree('a', [Tree('b', [Tree('c', []), Tree('d', [])]), Tree('a', [Tree('c', [])])])]
+for n in range(0, N + 1):
+    for shape in (shapes(n) if n else HAND):
+        t = materialise(shape, itertools.count()) if n else shape
         log0 = []
         exp = ref_transform(copy.deepcopy(t), log0)
         exp_log = [e for e in log0 if e[0] != 'd']
